@@ -16,7 +16,8 @@ included) — `sorter_unique`.  If it leaves a tie between distinct elements the
 
 The comparator program is INTERPRETED here (`cmpKeys`), on records with one natural-number and one text field — enough for
 the two state-path comparators of the source (`BridgeValidators.Less`, the missed-blocks order of the staking
-precompile's `validatorList`).
+precompile's `validatorList`) — and by the generic `cmpRec` on records with any number of fields of kind unsigned / big
+number, text, signed number, boolean or byte string.
 -/
 namespace FxVerif.Model.C17
 open FxVerif.Gen.C17
@@ -95,17 +96,43 @@ def meetsSortContract {α : Type} [BEq α] (le : α → α → Bool) (inp out : 
 
 /-! ## the comparator program on arbitrary records -/
 
-/-- a field value -/
+def cmpInt (a b : Int) : Ordering := if a < b then .lt else if a = b then .eq else .gt
+/-- `!a && b`-style comparators: false before true -/
+def cmpBool : Bool → Bool → Ordering
+  | false, true => .lt
+  | true, false => .gt
+  | _, _ => .eq
+/-- `bytes.Compare`: lexicographic on the bytes, a proper prefix first -/
+def cmpBytes : List Nat → List Nat → Ordering
+  | [], [] => .eq
+  | [], _ :: _ => .lt
+  | _ :: _, [] => .gt
+  | a :: as, b :: bs =>
+    match cmpNat a b with
+    | .eq => cmpBytes as bs
+    | o => o
+
+/-- a field value: unsigned / big number, text, signed number, boolean, byte string (the key kinds nat | big, string, int,
+bool, bytes of the translator) -/
 inductive Val where
   | n (v : Nat)
   | s (v : String)
+  | int (v : Int)
+  | bool (v : Bool)
+  | bytes (v : List Nat)
   deriving DecidableEq, Repr
 
+def Val.tag : Val → Nat
+  | .n _ => 0 | .s _ => 1 | .int _ => 2 | .bool _ => 3 | .bytes _ => 4
+
+/-- values of one kind by their own order; values of different kinds (never produced for one field) by kind -/
 def Val.cmp : Val → Val → Ordering
-  | .n a, .n b => cmpNat a b
-  | .s a, .s b => cmpStr a b
-  | .n _, .s _ => .lt
-  | .s _, .n _ => .gt
+  | .n x, .n y => cmpNat x y
+  | .s x, .s y => cmpStr x y
+  | .int x, .int y => cmpInt x y
+  | .bool x, .bool y => cmpBool x y
+  | .bytes x, .bytes y => cmpBytes x y
+  | x, y => cmpNat x.tag y.tag
 
 /-- an element of a sorted slice: field name ↦ value, in the field order of the element type (`[("", v)]` for a basic type) -/
 abbrev Rec := List (String × Val)
